@@ -4,18 +4,16 @@
   1. The VALUE MAPPING: `bindOf` = the `switch (v.type().major())` of `bind` / `exec(str, args)` / `query(str, args)`
      (BLOC value → SQLite storage class + payload, together with what SQLite's `sqlite3_bind_*` documents:
      `bind_double(NaN)` stores NULL, `bind_blob(NULL pointer, 0)` stores NULL), `fetchOf` = the
-     `switch (sqlite3_column_type)` of `fetch` / `fetchall` (storage class → BLOC value and type; TEXT goes through
-     `new Literal((const char*) sqlite3_column_text(..))`, a C-string constructor: the text ends at the first NUL).
+     `switch (sqlite3_column_type)` of `fetch` / `fetchall` (storage class → BLOC value and type; TEXT is built
+     from `sqlite3_column_text` WITH `sqlite3_column_bytes`: every byte comes back, NUL included).
   2. The statement/handle STATE MACHINE of `struct Handle` (`_db`, `_stmt`, `_stmt_status`) for three fixed
      statement shapes: `CREATE TABLE t(a)`, `INSERT INTO t VALUES(?)`, `SELECT a, typeof(a) FROM t`
      (+ `SELECT ?1, typeof(?1)` for the one-step query with parameters). SQL text and query evaluation are NOT
      modelled: SQLite is trusted to append a row on INSERT and to deliver the rows in insertion order.
-     `Handle::close()` finalizes `_stmt` but does not reset the pointer: afterwards every path that touches
-     `_stmt` (prepare, bind, execute, finalize, header, fetch in state ROW, a second close, the destructor) is a
-     use after free: outcome `.hazard .useAfterFree`.
-     `Handle::bind` passes SQLITE_STATIC for TEXT / BLOB: SQLite keeps a pointer INTO THE ARGUMENT TUPLE and reads it
-     at `execute()`. With a temporary `tup(..)` that memory is released as soon as a later statement reuses the
-     slot of the context's temporary pool (`Mem`): `execute()` then reads freed memory (same hazard).
+     `Handle::close()` finalizes `_stmt` and forgets it (`_stmt = nullptr; _stmt_status = STMT_NEW`): nothing dangles.
+     `Handle::bind` passes SQLITE_TRANSIENT for TEXT / BLOB: SQLite copies the bytes at bind time, so whether the
+     argument tuple is a temporary or a variable (`Op.bind _ temp`) makes no difference.
+     The `Hazard` vocabulary (use after free) is kept; `Proofs/C18F.lean` proves that no call produces it.
 -/
 namespace BlocV.Mod.Sqlite
 
@@ -69,17 +67,12 @@ def bindOf (emptyBuf : Bool) : BVal → Option SVal
   | .bytes b => some (if b = [] ∧ emptyBuf = false then .null else .blob b)
   | .obj => none
 
-/-- the C string: up to the first NUL -/
-def cstr : Bytes → Bytes
-  | [] => []
-  | b :: rest => if b = 0 then [] else b :: cstr rest
-
 /-- `fetch` / `fetchall`: one column -/
 def fetchOf : SVal → BVal
   | .null => .null .noType
   | .integer i => .int i
   | .real d => .dec d
-  | .text t => .str (cstr t)
+  | .text t => .str t
   | .blob b => .bytes b
 
 def asciiBytes (s : String) : Bytes := s.toUTF8.toList
@@ -104,7 +97,7 @@ def headerType : SVal → Bytes
 def Storable : BVal → Prop
   | .int _ => True
   | .dec d => isNaN d = false
-  | .str s => (0 : UInt8) ∉ s
+  | .str _ => True
   | .bytes b => b ≠ []
   | _ => False
 
@@ -119,23 +112,11 @@ inductive StKind | insert | select
 inductive Status | new | row | done
   deriving Repr, DecidableEq
 
-/-- who owns the memory a TEXT / BLOB parameter points to. `bind` passes SQLITE_STATIC: SQLite keeps the POINTER
-    into the argument tuple and reads it at `execute()`. -/
-inductive Mem
-  | owned      -- no pointer kept (NULL / INTEGER / REAL / zero length)
-  | live       -- points into a tuple held by a variable that is not reassigned
-  | temp       -- points into a temporary `tup(..)` of the statement that called bind: released as soon as a later
-               -- statement builds its own temporary in the same slot of the context's pool
-  | unknown    -- a temporary, and calls were made since whose temporaries are not modelled
-  | freed      -- the temporary was released
-  deriving Repr, DecidableEq
-
 /-- a live `sqlite3_stmt` -/
 structure Stmt where
   kind : StKind
   /-- parameter 1 (survives `sqlite3_reset`) -/
   binding : SVal := .null
-  mem : Mem := .owned
   /-- SELECT: rows from the current one on -/
   cursor : List SVal := []
   deriving Repr, DecidableEq
@@ -143,8 +124,6 @@ structure Stmt where
 structure Handle where
   isOpen : Bool := false
   stmt : Option Stmt := none
-  /-- `_stmt` is non-null but the statement was finalized by `close()` -/
-  dangling : Bool := false
   status : Status := .new
   deriving Repr, DecidableEq
 
@@ -187,7 +166,7 @@ inductive Op
   | queryParam (args : Option (List BVal)) -- query("SELECT ?1, typeof(?1)", args)
   | prepare (k : Option StKind)          -- none = prepare(null)
   | prepareBad                           -- a text SQLite rejects
-  | bind (args : Option (List BVal)) (temp : Bool)   -- temp: the argument is a temporary `tup(..)`, not a variable
+  | bind (args : Option (List BVal)) (temp : Bool)   -- temp: the argument is a temporary `tup(..)`, not a variable (no difference any more)
   | execute | header | fetch | finalize
   | destroy                              -- the object's destructor
   deriving Repr, DecidableEq
@@ -204,60 +183,24 @@ def bindArgs (emptyBuf : Bool) (old : SVal) : List BVal → SVal
   | [] => old
   | v :: _ => (bindOf emptyBuf v).getD old
 
-/-- does the value bound by this item keep a pointer into the tuple? -/
-def keepsPointer : SVal → Bool
-  | .text t => t != []
-  | .blob b => b != []
-  | _ => false
-
-/-- the memory state of parameter 1 after `bind(args)` on an INSERT statement -/
-def bindMem (emptyBuf : Bool) (old : Mem) (temp : Bool) : List BVal → Mem
-  | [] => old
-  | v :: _ =>
-    match bindOf emptyBuf v with
-    | none => old
-    | some s => if keepsPointer s then (if temp then .temp else .live) else .owned
-
-/-- a statement that builds a temporary tuple releases the temporary of an earlier `bind` -/
-def Handle.releaseTemp (h : Handle) : Handle :=
-  match h.stmt with
-  | some s => if s.mem = .temp ∨ s.mem = .unknown then { h with stmt := some { s with mem := .freed } } else h
-  | none => h
-
-/-- any other call: whether it overwrites the pool slot of the temporary is not modelled -/
-def Handle.blurTemp (h : Handle) : Handle :=
-  match h.stmt with
-  | some s => if s.mem = .temp then { h with stmt := some { s with mem := .unknown } } else h
-  | none => h
-
 /-- is a SELECT cursor positioned on a row? (an INSERT then is outside the model) -/
 def Handle.cursorActive (h : Handle) : Bool :=
   match h.stmt with
   | some s => s.kind == .select && h.status == .row
   | none => false
 
-/-- `Handle::close()` -/
+/-- `Handle::close()`: the statement is finalized and forgotten, the status is NEW again -/
 def closeH (w : World) : World × Res :=
-  if w.h.dangling then (w, .hazard .useAfterFree)
-  else ({ w with h := { w.h with isOpen := false, stmt := none, dangling := w.h.stmt.isSome } }, .bool true)
+  ({ w with h := { w.h with isOpen := false, stmt := none, status := .new } }, .bool true)
 
-/-- what a call does to the memory a pending `bind` points to, before the call itself -/
-def touchTemp (w : World) : Op → World
-  | .insert (some _) => { w with h := w.h.releaseTemp }
-  | .queryParam (some _) => { w with h := w.h.releaseTemp }
-  | .bind (some _) true => { w with h := w.h.releaseTemp }
-  | .execute => w
-  | .isOpen => w
-  | _ => { w with h := w.h.blurTemp }
-
-def stepCore (w : World) : Op → World × Res
-  | .ctor0 => if w.h.isOpen ∨ w.h.dangling then (w, .unmodelled) else ({ w with h := {} }, .bool true)
-  | .destroy => if w.h.dangling then (w, .hazard .useAfterFree) else ({ w with h := {} }, .bool true)
+/-- one method call -/
+def step (w : World) : Op → World × Res
+  | .ctor0 => if w.h.isOpen then (w, .unmodelled) else ({ w with h := {} }, .bool true)
+  | .destroy => ({ w with h := {} }, .bool true)
   | .open =>
     if w.h.isOpen then
-      match closeH w with
-      | (_, .hazard z) => (w, .hazard z)
-      | (w', _) => ({ w' with h := { w'.h with isOpen := true } }, .bool true)
+      let w' := (closeH w).1
+      ({ w' with h := { w'.h with isOpen := true } }, .bool true)
     else ({ w with h := { w.h with isOpen := true } }, .bool true)
   | .close => if w.h.isOpen then closeH w else (w, .bool false)
   | .isOpen => (w, .bool w.h.isOpen)
@@ -288,80 +231,57 @@ def stepCore (w : World) : Op → World × Res
       (w, .table [rowOf s] (declOf [s] .noType))
     | .prepare none => (w, .err)
     | .prepare (some k) =>
-      if w.h.dangling then (w, .hazard .useAfterFree)
-      else
-        match w.table with
-        | none => ({ w with h := { w.h with stmt := none, status := .new } }, .sqlErr)
-        | some _ => ({ w with h := { w.h with stmt := some { kind := k }, status := .new } }, .bool true)
-    | .prepareBad =>
-      if w.h.dangling then (w, .hazard .useAfterFree)
-      else ({ w with h := { w.h with stmt := none, status := .new } }, .sqlErr)
+      match w.table with
+      | none => ({ w with h := { w.h with stmt := none, status := .new } }, .sqlErr)
+      | some _ => ({ w with h := { w.h with stmt := some { kind := k }, status := .new } }, .bool true)
+    | .prepareBad => ({ w with h := { w.h with stmt := none, status := .new } }, .sqlErr)
     | .bind none _ => (w, .err)
-    | .bind (some args) temp =>
-      if w.h.dangling then (w, .hazard .useAfterFree)
-      else
-        match w.h.stmt with
-        | none => (w, .sqlErr)
-        | some s =>
-          match s.kind with
-          | .insert =>
-            let s' : Stmt := { s with binding := bindArgs w.emptyBuf s.binding args
-                                      mem := bindMem w.emptyBuf s.mem temp args, cursor := [] }
-            ({ w with h := { w.h with stmt := some s', status := .new } }, .bool true)
-          | .select => ({ w with h := { w.h with stmt := some { s with cursor := [] }, status := .new } }, .bool true)
+    | .bind (some args) _ =>
+      match w.h.stmt with
+      | none => (w, .sqlErr)
+      | some s =>
+        match s.kind with
+        | .insert =>
+          let s' : Stmt := { s with binding := bindArgs w.emptyBuf s.binding args, cursor := [] }
+          ({ w with h := { w.h with stmt := some s', status := .new } }, .bool true)
+        | .select => ({ w with h := { w.h with stmt := some { s with cursor := [] }, status := .new } }, .bool true)
     | .execute =>
-      if w.h.dangling then (w, .hazard .useAfterFree)
-      else
-        match w.h.stmt with
-        | none => (w, .sqlErr)
-        | some s =>
-          match s.kind, w.table with
-          | _, none => (w, .unmodelled)          -- cannot happen: prepare needs the table, nothing drops it
-          | .insert, some rows =>
-            if s.mem = .freed then (w, .hazard .useAfterFree)
-            else if s.mem = .unknown then (w, .unmodelled)
-            else ({ w with table := some (rows ++ [s.binding]), h := { w.h with status := .done } }, .bool true)
-          | .select, some rows =>
-            ({ w with h := { w.h with stmt := some { s with cursor := rows },
-                                       status := if rows = [] then .done else .row } }, .bool true)
+      match w.h.stmt with
+      | none => (w, .sqlErr)
+      | some s =>
+        match s.kind, w.table with
+        | _, none => (w, .unmodelled)          -- cannot happen: prepare needs the table, nothing drops it
+        | .insert, some rows =>
+          ({ w with table := some (rows ++ [s.binding]), h := { w.h with status := .done } }, .bool true)
+        | .select, some rows =>
+          ({ w with h := { w.h with stmt := some { s with cursor := rows },
+                                     status := if rows = [] then .done else .row } }, .bool true)
     | .header =>
-      if w.h.dangling then (if w.h.status = .new then (w, .err) else (w, .hazard .useAfterFree))
-      else
-        match w.h.stmt with
-        | none => (w, .err)
-        | some s =>
-          if w.h.status = .new then (w, .err)
-          else
-            match s.kind with
-            | .insert => (w, .nullTable)
-            | .select =>
-              match w.h.status, s.cursor with
-              | .row, r :: _ => (w, .header (headerType r) (asciiBytes "string"))
-              | _, _ => (w, .header (asciiBytes "undefined") (asciiBytes "undefined"))
+      match w.h.stmt with
+      | none => (w, .err)
+      | some s =>
+        if w.h.status = .new then (w, .err)
+        else
+          match s.kind with
+          | .insert => (w, .nullTable)
+          | .select =>
+            match w.h.status, s.cursor with
+            | .row, r :: _ => (w, .header (headerType r) (asciiBytes "string"))
+            | _, _ => (w, .header (asciiBytes "undefined") (asciiBytes "undefined"))
     | .fetch =>
-      if w.h.dangling then (if w.h.status = .row then (w, .hazard .useAfterFree) else (w, .bool false))
-      else
-        match w.h.stmt with
-        | none => (w, .bool false)
-        | some s =>
-          match w.h.status, s.cursor with
-          | .row, r :: rest =>
-            ({ w with h := { w.h with stmt := some { s with cursor := rest },
-                                       status := if rest = [] then .done else .row } }, .row (rowOf r))
-          | _, _ => (w, .bool false)
+      match w.h.stmt with
+      | none => (w, .bool false)
+      | some s =>
+        match w.h.status, s.cursor with
+        | .row, r :: rest =>
+          ({ w with h := { w.h with stmt := some { s with cursor := rest },
+                                     status := if rest = [] then .done else .row } }, .row (rowOf r))
+        | _, _ => (w, .bool false)
     | .finalize =>
-      if w.h.dangling then (w, .hazard .useAfterFree)
-      else
-        match w.h.stmt with
-        | none => (w, .bool false)
-        | some _ => ({ w with h := { w.h with stmt := none } }, .bool true)
+      match w.h.stmt with
+      | none => (w, .bool false)
+      | some _ => ({ w with h := { w.h with stmt := none } }, .bool true)
     | _ => (w, .unmodelled)
-
-/-- one method call -/
-def step (w : World) (op : Op) : World × Res :=
-  let (w', r) := stepCore (touchTemp w op) op
-  -- the value `execute()` returns is itself a temporary of the calling statement: the tuple may be gone afterwards
-  (if op = .execute then { w' with h := w'.h.blurTemp } else w', r)
 
 def run : World → List Op → World × List Res
   | w, [] => (w, [])
